@@ -1005,6 +1005,34 @@ static void fam_c11_repeat(G& g, Plan& p) {
 
 
 
+// arenas that are too small: with a 64 MiB reserve every huge block takes a whole arena, so a dozen of them live at once make the
+// allocator reserve more than 8 arenas (from where on the reserve size doubles); each repetition must find its memory in the arenas
+// that exist and all of it must be decommitted at the end
+static void fam_c11_manyarenas(G& g, Plan& p) {
+  set_env(p, "ARENA_RESERVE", g.pick<std::string>({"64MiB", "64MiB", "96MiB", "32MiB"}));
+  if (g.chance(0.3)) set_env(p, "ARENA_EAGER_COMMIT", g.pick({0, 1}));
+  int purge = (int)g.below(10);   // 0..6 decommit (default), 7..8 reset, 9 off
+  if (purge >= 9) set_env(p, "PURGE_DELAY", -1); else if (purge >= 7) set_env(p, "PURGE_DECOMMITS", 0);
+  if (g.chance(0.3)) set_env(p, "PURGE_DELAY", g.pick({0, 1, 10}));
+  p.cfg.madv_free_mode = 1;
+  p.progs.resize(1); p.nslots = 80; Program& P0 = p.progs[0];
+  const int N = 3 + (int)g.below(3);
+  Rng shape; shape.seed(g.r.next());
+  for (int rep = 0; rep < N; rep++) {
+    Rng r2 = shape; G g2(p, 0, g.build); g2.r = r2; g2.padded = g.padded;
+    int nh = 9 + (int)g2.below(9);
+    for (int i = 0; i < nh; i++) { Op o = mk(OP_malloc, i, 33 * MiB + g2.below(28 * MiB)); if (g2.chance(0.3)) o.a = 17 * MiB + g2.below(14 * MiB); P0.ops.push_back(o);
+      if (g2.chance(0.3)) P0.ops.push_back(mk(OP_malloc, 30 + (int)g2.below(40), gen_size(g2, SM_SMALL | SM_MEDIUM | SM_LARGE)));
+      if (g2.chance(0.15)) P0.ops.push_back(mk(OP_free, (int)g2.below((uint64_t)i + 1)));
+      if (g2.chance(0.1)) P0.ops.push_back(mk(OP_advance, -1, g2.pick<uint64_t>({10, 50, 120, 1000}))); }
+    P0.ops.push_back(mk(OP_verify_all));
+    P0.ops.push_back(mk(OP_free_all));
+    P0.ops.push_back(mk(OP_footprint_mark));
+  }
+  uint64_t fl = 0; if (purge >= 7) fl |= 2;
+  P0.ops.push_back(mk(OP_giveback_check, -1, fl));
+}
+
 // give-back after mi_heap_delete of heaps the backing heap cannot absorb (own tag, or bound to an arena): their pages are abandoned
 // inside segments the thread still owns; once everything is freed and the threads are gone all of it must be given back
 static void fam_c11_heapdelete(G& g, Plan& p) {
@@ -1866,6 +1894,7 @@ static const FamilyDef FAMILIES[] = {
   {"c09_oslist", "C09", fam_c09_oslist, 0, true},
   {"c01_pagequeue", "C01", fam_c01_pagequeue, 1, false},
   {"c01_pageedge", "C01", fam_c01_pageedge, 1, false},
+  {"c11_manyarenas", "C11", fam_c11_manyarenas, 0, false},
   {"c11_heapdelete", "C11", fam_c11_heapdelete, 0, true},
   {"c15_arenas", "C15", fam_c15_arenas, 0, true},
   {"c17_misuse", "C17", fam_c17_misuse, 1, true},
